@@ -248,6 +248,10 @@ class Scan:
         self.slot_w = []
         self.wpath = []
         self.cur_arm = None
+        # names of functions of the scanned files that take `&mut self`
+        self.mut_self_methods = set()
+        for f in self.src:
+            self.mut_self_methods.update(re.findall(r"\bfn\s+(\w+)\s*(?:<[^>(]*>)?\s*\(\s*&\s*(?:'\w+\s+)?mut\s+self\b", self.src[f]))
         self.check_global()
 
     # ---- global fail-closed checks ---------------------------------------------------------
@@ -483,6 +487,10 @@ class Scan:
                 stmt_rest = re.split(r"[;{]", after, 1)[0]
                 w_let = bool(re.search(r"\blet\s+mut\s+\w+\s*(?::[^=]+)?=\s*$", head)) or bool(re.search(r"=\s*&\s*mut\s+$", head))
                 w_tmp = bool(re.match(r"(\s*\.\s*\w+)*\s*(=(?!=)|\+=|-=)", stmt_rest)) or bool(re.search(MUTATORS, stmt_rest))
+                if not w_tmp:
+                    # a method of the scanned sources that takes `&mut self`, called on the temporary guard
+                    cm1 = re.match(r"\s*\.\s*(\w+)\s*\(", stmt_rest)
+                    w_tmp = bool(cm1 and cm1.group(1) in self.mut_self_methods)
                 def check_escape(nm):
                     depth_, scope_end = 0, n
                     for q in range(end2, n):
